@@ -61,6 +61,15 @@ m('C04', B, '\toldS, ok := gb.scStates[sc]\n\tif !ok {', '\toldS, ok := gb.scSta
 m('C04', B, 'case connectivity.Connecting:\n\t\t\tcse.numConnecting += updateVal', 'case connectivity.Connecting, connectivity.Idle:\n\t\t\tcse.numConnecting += updateVal', 'Idle counted as connecting')
 m('C04', B, '(gb.state == connectivity.TransientFailure) != (oldAggrState == connectivity.TransientFailure) {', '(gb.state == connectivity.TransientFailure) != (oldAggrState == connectivity.TransientFailure) && s != connectivity.Idle {', 'publish condition loses a case')
 
+# ---------------- wave 10 rules
+m('C01', B, '\t_, ok := gb.affinityMap[bindKey]\n\tif !ok {\n\t\tgb.affinityMap[bindKey] = sc\n\t}', '\t_, ok := gb.affinityMap[bindKey]\n\tgb.mu.Unlock()\n\tgb.mu.Lock()\n\tif !ok {\n\t\tgb.affinityMap[bindKey] = sc\n\t}', 'gb.mu released between the not-bound test and the insert')
+m('C04', B, '\tgb.scStates[sc] = s\n\tswitch s {', '\tif s != connectivity.Idle {\n\t\tgb.scStates[sc] = s\n\t}\n\tswitch s {', 'an IDLE report is counted but not recorded')
+m('C04', B, '\t\tgb.regeneratePicker()\n\t\tgb.cc.UpdateState(balancer.State{\n\t\t\tConnectivityState: gb.state,\n\t\t\tPicker:            gb.picker,\n\t\t})\n\t}\n', '\t\tgb.regeneratePicker()\n\t\tgb.cc.UpdateState(balancer.State{\n\t\t\tConnectivityState: gb.state,\n\t\t\tPicker:            gb.picker,\n\t\t})\n\t}\n\tif s == connectivity.Shutdown {\n\t\tdelete(gb.scRefs, sc)\n\t}\n', 'a table write follows the picker snapshot')
+m('C08', B, '\t\t\tif v == sc {\n\t\t\t\tdelete(gb.fallbackMap, k)\n\t\t\t}', '\t\t\tif v == sc {\n\t\t\t\tdelete(gb.fallbackMap, k)\n\t\t\t\tbreak\n\t\t\t}', 'the stand-in purge stops at the first match')
+m('C20', B, '\t\tdelete(gb.refreshingScRefs, sc)\n', '\t\tdelete(gb.refreshingScRefs, sc)\n\t\tgb.mu.Unlock()\n\t\tgb.mu.Lock()\n', 'gb.mu released in the middle of the take-over')
+m('C17', B, '\tif cp.GetMinSize() == 0 {\n\t\tcp.MinSize = defaultMinSize\n\t}\n\tif cp.GetMaxSize() == 0 {', '\tif cp.GetMinSize() == 0 {\n\t\tcp.MinSize = defaultMinSize\n\t} else if cp.GetMaxSize() == 0 {', 'maxSize defaulted only when minSize was set (alternatives instead of independent tests)')
+m('C18', PR, '\tif backoff > max {\n\t\tbackoff = max\n\t}', '\tif backoff > max && retries == 0 {\n\t\tbackoff = max\n\t}', 'clamp applied only when the retries ran out')
+
 # ---------------- C05
 m('C05', P, '\t\t\tif len(a) > 0 {\n\t\t\t\tboundKey = a[0]\n\t\t\t}', '\t\t\tboundKey = a[0]', 'index of a possibly empty key list (F6)')
 m('C05', P, '\t\t\tif !hasGCPCtx {\n\t\t\t\t// No reply message to get affinity keys from (interceptor not installed).\n\t\t\t\treturn\n\t\t\t}\n', '', 'nil interceptor context dereferenced in the callback (F7)')
